@@ -278,7 +278,8 @@ Proof.
     + destruct (l_et (st w)); [|eapply Iv_X_Rel; exact H2].
       destruct (sent + n <? l_chunk (st w2)).
       * apply IHwrite. eapply Iv_X_Rel; exact H2.
-      * eapply Iv_X_Rel. apply I_trigger; [apply Stable_At|reflexivity|exact H2].
+      * eapply Iv_X_Rel. apply I_trigger; [apply Stable_At|reflexivity|].
+        apply I_ghost; [cbn; tauto|exact H2].
   - destruct (is_eagain e); [eapply Iv_X_Rel; exact H1|].
     apply IHclose. eapply Iv_X_Rel; exact H1.
   - eapply Iv_X_Rel; exact H1.
